@@ -15,6 +15,8 @@ Section Proofs.
   Variable derive_sk : bytes -> Z -> Z -> option sk.
   Variable sign : sk -> bytes -> sig.
   Variable zfix : bool.
+  Variable sfix : bool.
+  Variable nfix : bool.
   Variable cfg : amcfg.
 
   (* the wallet's true secrets *)
@@ -26,8 +28,10 @@ Section Proofs.
   Definition good : bytes := kdf right (c_salt cfg).
 
   (* What is assumed of the primitives and of the stored rows.
-     Idealisations: the stored digest identifies the passphrase (scrypt followed by SHA-256 has
-     no collision between passphrases for this salt); the salted SHA-512 has no collision for the
+     Idealisations: the stored digest identifies the passphrase among the candidates that do not
+     end with a zero byte (scrypt followed by SHA-256 has no collision between such passphrases for
+     this salt; scrypt's HMAC zero-pads short keys, so P and P||00.. do collide — see [nfix]); the
+     passphrase itself does not end with a zero byte; the salted SHA-512 has no collision for the
      run salt; the derived master key is not the all-zero key and the all-zero key opens neither
      box (secretbox authenticates).
      Facts about the rows written by create / import (manager.go initAcctBucket,
@@ -35,7 +39,8 @@ Section Proofs.
      account key and the entropy; the account key derives the key of every issued address. *)
   Record unlock_laws : Prop := {
     cfg_digest : c_digest cfg = digest good;
-    kdf_digest_inj : forall p, digest (kdf p (c_salt cfg)) = digest good -> p = right;
+    kdf_digest_inj : forall p, ends_nul p = false -> digest (kdf p (c_salt cfg)) = digest good -> p = right;
+    right_no_nul : ends_nul right = false;
     shash_inj : forall p q, shash (c_run_salt cfg ++ p) = shash (c_run_salt cfg ++ q) -> p = q;
     good_nonzero : good <> zero32;
     open_cpriv : exists ck, open_box good (c_cpriv_enc cfg) = Some ck /\ open_box ck (c_acct_enc cfg) = Some acct;
@@ -47,42 +52,48 @@ Section Proofs.
     cfg_v0 : c_version cfg = 0 }.
 
   Hypothesis laws : unlock_laws.
+  (* the theorems of this section are about the code with the salted buffer freshly allocated *)
+  Hypothesis Sfix : sfix = true.
+  Hypothesis Nfix : nfix = true.
 
   Local Notation amstate := (amstate sk).
-  Local Notation check_password := (check_password kdf digest shash sk cfg).
-  Local Notation safely_check := (safely_check kdf digest shash sk zfix cfg).
+  Local Notation check_password := (check_password kdf digest shash sk sfix nfix cfg).
+  Local Notation safely_check := (safely_check kdf digest shash sk zfix sfix nfix cfg).
   Local Notation get_priv := (get_priv open_box sk branch_ok derive_sk cfg).
-  Local Notation sign_btcec := (sign_btcec kdf digest shash open_box sk sig branch_ok derive_sk sign cfg).
-  Local Notation get_mnemonic := (get_mnemonic kdf digest shash open_box sk cfg).
-  Local Notation step := (step kdf digest shash open_box sk sig branch_ok derive_sk sign zfix cfg).
-  Local Notation step_st := (step_st kdf digest shash open_box sk sig branch_ok derive_sk sign zfix cfg).
-  Local Notation step_out := (step_out kdf digest shash open_box sk sig branch_ok derive_sk sign zfix cfg).
-  Local Notation step_uses := (step_uses kdf digest shash open_box sk sig branch_ok derive_sk sign zfix cfg).
-  Local Notation run := (run kdf digest shash open_box sk sig branch_ok derive_sk sign zfix cfg).
-  Local Notation reachable := (reachable kdf digest shash open_box sk sig branch_ok derive_sk sign zfix cfg).
-  Local Notation wstep := (wstep kdf digest shash open_box sk sig branch_ok derive_sk sign zfix cfg).
-  Local Notation wrun := (wrun kdf digest shash open_box sk sig branch_ok derive_sk sign zfix cfg).
-  Local Notation wreachable := (wreachable kdf digest shash open_box sk sig branch_ok derive_sk sign zfix cfg).
-  Local Notation sign_all := (sign_all kdf digest shash open_box sk sig branch_ok derive_sk sign zfix cfg).
+  Local Notation sign_btcec := (sign_btcec kdf digest shash open_box sk sig branch_ok derive_sk sign sfix nfix cfg).
+  Local Notation get_mnemonic := (get_mnemonic kdf digest shash open_box sk sfix nfix cfg).
+  Local Notation step := (step kdf digest shash open_box sk sig branch_ok derive_sk sign zfix sfix nfix cfg).
+  Local Notation step_st := (step_st kdf digest shash open_box sk sig branch_ok derive_sk sign zfix sfix nfix cfg).
+  Local Notation step_out := (step_out kdf digest shash open_box sk sig branch_ok derive_sk sign zfix sfix nfix cfg).
+  Local Notation step_uses := (step_uses kdf digest shash open_box sk sig branch_ok derive_sk sign zfix sfix nfix cfg).
+  Local Notation run := (run kdf digest shash open_box sk sig branch_ok derive_sk sign zfix sfix nfix cfg).
+  Local Notation reachable := (reachable kdf digest shash open_box sk sig branch_ok derive_sk sign zfix sfix nfix cfg).
+  Local Notation wstep := (wstep kdf digest shash open_box sk sig branch_ok derive_sk sign zfix sfix nfix cfg).
+  Local Notation wrun := (wrun kdf digest shash open_box sk sig branch_ok derive_sk sign zfix sfix nfix cfg).
+  Local Notation wreachable := (wreachable kdf digest shash open_box sk sig branch_ok derive_sk sign zfix sfix nfix cfg).
+  Local Notation sign_all := (sign_all kdf digest shash open_box sk sig branch_ok derive_sk sign zfix sfix nfix cfg).
 
   (* ---------------------------------------------------------------- the invariant *)
   Definition cache_ok (l : list (addr * sk)) : Prop :=
     forall a k, lookup_sk a l = Some k -> k = sk_of a.
 
+  Definition CInv (st : amstate) : Prop :=
+    cache_ok (s_cached st) /\ s_salt st = c_run_salt cfg.
+
   Definition Inv (st : amstate) : Prop :=
-    cache_ok (s_cached st) /\
+    CInv st /\
     if s_unlocked st
     then s_hashed st = shash (c_run_salt cfg ++ right) /\
          (s_mk st = good \/ (zfix = false /\ s_mk st = zero32)) /\ s_branch st = Some acct
     else s_hashed st = zero64 /\ s_branch st = None /\ s_cached st = [].
 
-  Lemma Inv_init : Inv init_state.
-  Proof. split; [intros a k H; discriminate|]. cbn. auto. Qed.
+  Lemma Inv_init : Inv (init_state cfg).
+  Proof. split; [split; [intros a k H; discriminate|reflexivity]|]. cbn. auto. Qed.
 
   (* the same state up to the content of masterKeyPriv.Key *)
   Definition same_but_mk (a b : amstate) : Prop :=
     s_unlocked a = s_unlocked b /\ s_hashed a = s_hashed b /\
-    s_branch a = s_branch b /\ s_cached a = s_cached b.
+    s_branch a = s_branch b /\ s_cached a = s_cached b /\ s_salt a = s_salt b.
 
   Lemma same_refl a : same_but_mk a a.
   Proof. repeat split. Qed.
@@ -95,28 +106,52 @@ Section Proofs.
   Lemma check_right st : Inv st ->
     check_password st right = (None, if s_unlocked st then st else set_mk st good).
   Proof.
-    intros [_ H]. unfold Unlock.check_password.
+    intros [[_ Hs] H]. unfold Unlock.check_password. rewrite Sfix, Hs, (right_no_nul laws), andb_false_r.
     destruct (s_unlocked st).
     - destruct H as (Hh & _). rewrite Hh, bytes_eqb_refl. reflexivity.
     - fold good. rewrite (cfg_digest laws), bytes_eqb_refl. reflexivity.
   Qed.
 
+  (* the state a refused check leaves: nothing changes, except that a locked manager holds the
+     (wrong) derived key when the key derivation was reached *)
+  Definition wrong_state (st : amstate) (p : bytes) : amstate :=
+    if s_unlocked st then st
+    else if ends_nul p then st else set_mk st (kdf p (c_salt cfg)).
+
   Lemma check_wrong st p : Inv st -> p <> right ->
-    check_password st p =
-    (Some EInvalidPassphrase, if s_unlocked st then st else set_mk st (kdf p (c_salt cfg))).
+    check_password st p = (Some EInvalidPassphrase, wrong_state st p).
   Proof.
-    intros [_ H] Hp. unfold Unlock.check_password.
+    intros [[_ Hs] H] Hp. unfold Unlock.check_password, wrong_state. rewrite Sfix, Nfix, Hs. cbn [andb].
     destruct (s_unlocked st).
     - destruct H as (Hh & _). rewrite Hh.
       destruct (bytes_eqb _ _) eqn:E; [|reflexivity].
       apply bytes_eqb_eq in E. apply (shash_inj laws) in E. contradiction.
-    - destruct (bytes_eqb _ _) eqn:E; [|reflexivity].
+    - destruct (ends_nul p) eqn:N; [reflexivity|].
+      destruct (bytes_eqb _ _) eqn:E; [|reflexivity].
       apply bytes_eqb_eq in E. rewrite (cfg_digest laws) in E.
-      apply (kdf_digest_inj laws) in E. contradiction.
+      apply (kdf_digest_inj laws p N) in E. contradiction.
   Qed.
 
   Lemma Inv_set_mk_locked st k : Inv st -> s_unlocked st = false -> Inv (set_mk st k).
   Proof. intros [C H] U. split; [exact C|]. cbn. rewrite U in *. exact H. Qed.
+
+  Lemma Inv_wrong_state st p : Inv st -> Inv (wrong_state st p).
+  Proof.
+    intros I. unfold wrong_state. destruct (s_unlocked st) eqn:U; [exact I|].
+    destruct (ends_nul p); [exact I|apply Inv_set_mk_locked; auto].
+  Qed.
+
+  Lemma same_wrong_state st p : same_but_mk st (wrong_state st p).
+  Proof.
+    unfold wrong_state. destruct (s_unlocked st); [apply same_refl|].
+    destruct (ends_nul p); [apply same_refl|apply same_set_mk].
+  Qed.
+
+  Lemma wrong_state_unlocked st p : s_unlocked (wrong_state st p) = s_unlocked st.
+  Proof.
+    unfold wrong_state. destruct (s_unlocked st) eqn:U; [exact U|].
+    destruct (ends_nul p); [exact U|exact U].
+  Qed.
 
   (* what safelyCheckPassword does after a successful check *)
   Definition after_safe (st : amstate) : amstate :=
@@ -163,24 +198,24 @@ Section Proofs.
   Proof.
     intros [C H] U K. rewrite U in H. destruct H as (Hh & Hm & Hb).
     unfold Unlock.get_priv. destruct (lookup_sk a (s_cached st)) as [k|] eqn:L.
-    - apply C in L. subst k. rewrite Hb. exists st. repeat split; auto.
-      + rewrite U. auto.
+    - apply (proj1 C) in L. subst k. rewrite Hb. exists st. split; [reflexivity|]. split; [|auto].
+      split; [exact C|]. rewrite U. auto.
     - rewrite Hb. rewrite (derive_known laws a K).
-      eexists. split; [reflexivity|]. unfold Inv. cbn [s_unlocked s_hashed s_mk s_branch s_cached]. rewrite ?U.
-      repeat split; auto. apply lookup_cons_ok; auto.
+      eexists. split; [reflexivity|]. unfold Inv, CInv. cbn [s_unlocked s_hashed s_mk s_branch s_cached s_salt]. rewrite ?U.
+      destruct C as [C Hs]. repeat split; auto. apply lookup_cons_ok; auto.
   Qed.
 
   (* the same when nothing is cached yet and the master key is the good one *)
-  Lemma get_priv_fresh st a : s_cached st = [] -> s_unlocked st = true ->
+  Lemma get_priv_fresh st a : s_cached st = [] -> s_salt st = c_run_salt cfg -> s_unlocked st = true ->
     s_hashed st = shash (c_run_salt cfg ++ right) -> s_mk st = good -> s_branch st = None ->
     known cfg a = true ->
     exists st', get_priv st a = (ROk (sk_of a), st', [good]) /\
                 Inv st' /\ s_unlocked st' = true /\ s_mk st' = good /\ s_hashed st' = s_hashed st.
   Proof.
-    intros C U Hh Hm Hb K. unfold Unlock.get_priv. rewrite C. cbn [lookup_sk]. rewrite Hb, Hm.
+    intros C Hs U Hh Hm Hb K. unfold Unlock.get_priv. rewrite C. cbn [lookup_sk]. rewrite Hb, Hm.
     destruct (open_cpriv laws) as (ck & O1 & O2). rewrite O1, O2, (acct_branch_ok laws).
     rewrite (derive_known laws a K). eexists. split; [reflexivity|].
-    unfold Inv. cbn [s_unlocked s_hashed s_mk s_branch s_cached]. rewrite U.
+    unfold Inv, CInv. cbn [s_unlocked s_hashed s_mk s_branch s_cached s_salt]. rewrite U.
     repeat split; auto. apply lookup_cons_ok; [intros b kb Hx; discriminate|reflexivity].
   Qed.
 
@@ -198,10 +233,10 @@ Section Proofs.
       exists st'. eexists. split; [reflexivity|]. split; [exact I'|]. split; [exact U'|].
       intros k Hk. destruct I as [_ HI]. rewrite U in HI. destruct HI as (_ & Hm & Hb).
       rewrite Hb in Hk. destruct Hk.
-    - destruct I as [C HI]. rewrite U in HI. destruct HI as (Hh & Hb & Hc).
-      destruct (get_priv_fresh (mkSt true (shash (c_run_salt cfg ++ right)) good (s_branch st) (s_cached st)) a)
+    - destruct I as [[C Hs] HI]. rewrite U in HI. destruct HI as (Hh & Hb & Hc).
+      destruct (get_priv_fresh (mkSt true (shash (c_run_salt cfg ++ right)) good (s_branch st) (s_cached st) (s_salt st)) a)
         as (st' & E & I' & U' & M' & _); auto.
-      cbn [s_hashed s_mk s_branch s_cached set_mk]. rewrite E.
+      cbn [s_hashed s_mk s_branch s_cached s_salt set_mk]. rewrite Hs. rewrite Hs in E. rewrite E.
       exists st'. eexists. split; [reflexivity|]. split; [exact I'|]. split; [exact U'|].
       intros k [<-|[]]. reflexivity.
   Qed.
@@ -212,9 +247,7 @@ Section Proofs.
   Proof.
     intros I [K L] Hp. cbn [Unlock.step]. rewrite K. cbn [negb]. unfold Unlock.sign_btcec.
     rewrite L, Nat.eqb_refl. cbn [negb]. rewrite (check_wrong st p I Hp).
-    eexists. split; [reflexivity|]. destruct (s_unlocked st) eqn:U.
-    - split; [exact I|apply same_refl].
-    - split; [apply Inv_set_mk_locked; auto|apply same_set_mk].
+    eexists. split; [reflexivity|]. split; [apply Inv_wrong_state; exact I|apply same_wrong_state].
   Qed.
 
   (* a wrong passphrase never yields a signature, whatever the address and the hash *)
@@ -226,9 +259,7 @@ Section Proofs.
     unfold Unlock.sign_btcec. destruct (length h =? 32)%nat eqn:L; cbn [negb].
     2:{ exists EInvalidDataHash, st. split; [reflexivity|]. split; [exact I|apply same_refl]. }
     rewrite (check_wrong st p I Hp). exists EInvalidPassphrase. eexists. split; [reflexivity|].
-    destruct (s_unlocked st) eqn:U.
-    - split; [exact I|apply same_refl].
-    - split; [apply Inv_set_mk_locked; auto|apply same_set_mk].
+    split; [apply Inv_wrong_state; exact I|apply same_wrong_state].
   Qed.
 
   (* every step preserves the invariant *)
@@ -251,7 +282,7 @@ Section Proofs.
         destruct (check_password st right) as [[e|] st1]; [discriminate|].
         destruct (get_priv _ a) as [[[k|e] st3] uu]; inversion E; subst; exact I'.
       + rewrite (check_wrong st p I Hp). cbn [fst snd].
-        destruct (s_unlocked st) eqn:U; [exact I|apply Inv_set_mk_locked; auto].
+        apply Inv_wrong_state; exact I.
     - (* export *)
       unfold Unlock.export_keystore, Unlock.safely_check.
       destruct (bytes_eqb p right) eqn:E.
@@ -259,7 +290,7 @@ Section Proofs.
         apply (Inv_safely_right st I).
       + assert (Hp : p <> right) by (intros ->; rewrite bytes_eqb_refl in E; discriminate).
         rewrite (check_wrong st p I Hp). cbn [fst snd].
-        destruct (s_unlocked st) eqn:U; [exact I|apply Inv_set_mk_locked; auto].
+        apply Inv_wrong_state; exact I.
     - (* mnemonic *)
       unfold Unlock.get_mnemonic.
       destruct (bytes_eqb p right) eqn:E.
@@ -275,7 +306,7 @@ Section Proofs.
           destruct (open_box cke (c_ent_enc cfg)); exact IZ.
       + assert (Hp : p <> right) by (intros ->; rewrite bytes_eqb_refl in E; discriminate).
         rewrite (check_wrong st p I Hp). cbn [fst snd].
-        destruct (s_unlocked st) eqn:U; [exact I|apply Inv_set_mk_locked; auto].
+        apply Inv_wrong_state; exact I.
     - (* check *)
       unfold Unlock.safely_check.
       destruct (bytes_eqb p right) eqn:E.
@@ -283,7 +314,7 @@ Section Proofs.
         apply (Inv_safely_right st I).
       + assert (Hp : p <> right) by (intros ->; rewrite bytes_eqb_refl in E; discriminate).
         rewrite (check_wrong st p I Hp). cbn [fst snd].
-        destruct (s_unlocked st) eqn:U; [exact I|apply Inv_set_mk_locked; auto].
+        apply Inv_wrong_state; exact I.
     - (* change priv *)
       unfold Unlock.change_priv. destruct (s_unlocked st); [exact I|].
       destruct (c_version cfg =? 0); exact I.
@@ -294,9 +325,15 @@ Section Proofs.
         apply (Inv_safely_right st I).
       + assert (Hp : np <> right) by (intros ->; rewrite bytes_eqb_refl in E; discriminate).
         rewrite (check_wrong st np I Hp). cbn [fst snd].
-        destruct (s_unlocked st) eqn:U; [exact I|apply Inv_set_mk_locked; auto].
-    - exact Inv_init.
+        apply Inv_wrong_state; exact I.
+    - destruct I as [[_ Hs] _]. cbn [snd fst]. unfold Unlock.clear_priv_keys. rewrite Hs. exact Inv_init.
   Qed.
+
+  Lemma clear_is_init st : Inv st -> clear_priv_keys sk st = init_state cfg.
+  Proof. intros [[_ Hs] _]. unfold Unlock.clear_priv_keys, Unlock.init_state. rewrite Hs. reflexivity. Qed.
+
+  Lemma Inv_clear st : Inv st -> Inv (clear_priv_keys sk st).
+  Proof. intros I. rewrite (clear_is_init st I). exact Inv_init. Qed.
 
   Lemma run_Inv ops : forall st, Inv st -> Inv (run st ops).
   Proof. induction ops as [|o r IH]; intros st I; [exact I|]. cbn. apply IH, step_Inv, I. Qed.
@@ -336,13 +373,13 @@ Section Proofs.
     - destruct (sign_wrong st p a h I (R a h eq_refl) Hp) as (st' & E & _ & S). eauto.
     - cbn [Unlock.step]. unfold Unlock.export_keystore, Unlock.safely_check.
       rewrite (check_wrong st p I Hp). eexists. split; [reflexivity|].
-      destruct (s_unlocked st); [apply same_refl|apply same_set_mk].
+      apply same_wrong_state.
     - cbn [Unlock.step]. unfold Unlock.get_mnemonic.
       rewrite (check_wrong st p I Hp). eexists. split; [reflexivity|].
-      destruct (s_unlocked st); [apply same_refl|apply same_set_mk].
+      apply same_wrong_state.
     - cbn [Unlock.step]. unfold Unlock.safely_check.
       rewrite (check_wrong st p I Hp). eexists. split; [reflexivity|].
-      destruct (s_unlocked st); [apply same_refl|apply same_set_mk].
+      apply same_wrong_state.
   Qed.
 
   (* the right passphrase: sign, export and check always work *)
@@ -402,7 +439,7 @@ Section Proofs.
     exists st, reachable st /\ s_unlocked st = true /\ s_mk st = zero32.
   Proof.
     intros Z R.
-    destruct (sign_right init_state a h Inv_init R) as (st1 & u & E1 & I1 & U1 & _).
+    destruct (sign_right (init_state cfg) a h Inv_init R) as (st1 & u & E1 & I1 & U1 & _).
     destruct (right_pass_export st1 I1) as (st2 & E2 & U2 & _ & M2).
     exists st2. split; [|split; [congruence|]].
     - exists [OSign right a h; OExport right]. cbn [Unlock.run]. unfold Unlock.step_st.
@@ -545,27 +582,33 @@ Section Proofs.
     specialize (IH st1 p I1). destruct (sign_all st1 p r) as [[l|e] st2]; exact IH.
   Qed.
 
+  (* operations other than signing leave a locked manager locked *)
+  Lemma step_keeps_locked st o : match o with OSign _ _ _ => False | _ => True end ->
+    s_unlocked st = false -> s_unlocked (step_st st o) = false.
+  Proof.
+    intros NS U. unfold Unlock.step_st. destruct o; try contradiction; cbn [Unlock.step];
+      unfold Unlock.export_keystore, Unlock.get_mnemonic, Unlock.change_priv, Unlock.change_pub;
+      unfold Unlock.safely_check; unfold Unlock.check_password;
+      rewrite ?U;
+      repeat match goal with
+             | |- context [if ?b then _ else _] => destruct b
+             | |- context [match ?x with Some _ => _ | None => _ end] => destruct x
+             end;
+      cbn [fst snd s_unlocked set_mk set_salt Unlock.clear_priv_keys locked_state]; rewrite ?U; try reflexivity.
+  Qed.
+
   Lemma wstep_locked st o : is_sign_hash o = false -> Inv st -> s_unlocked st = false ->
     Inv (snd (wstep st o)) /\ s_unlocked (snd (wstep st o)) = false.
   Proof.
     intros NS I U. destruct o as [p ins|p a h|p|p|p|a b|np]; try discriminate; cbn [Unlock.wstep snd].
-    - destruct (sign_all st p ins) as [[l|e] st']; cbn [snd]; split; try exact Inv_init; reflexivity.
-    - split; [apply step_Inv, I|]. unfold Unlock.step_st. cbn [Unlock.step].
-      unfold Unlock.export_keystore, Unlock.safely_check, Unlock.check_password. rewrite U.
-      destruct (bytes_eqb _ _); cbn [fst snd s_unlocked set_mk]; rewrite ?U, ?andb_false_r; cbn [s_unlocked set_mk]; rewrite ?U; reflexivity.
-    - split; [apply step_Inv, I|]. unfold Unlock.step_st. cbn [Unlock.step].
-      unfold Unlock.get_mnemonic, Unlock.check_password. rewrite U.
-      destruct (bytes_eqb _ _); cbn [s_unlocked set_mk]; [|exact U]. rewrite U.
-      destruct (open_box _ (c_cent_enc cfg)) as [cke|]; [|exact U].
-      destruct (open_box cke (c_ent_enc cfg)); exact U.
-    - split; [apply step_Inv, I|]. unfold Unlock.step_st. cbn [Unlock.step].
-      unfold Unlock.safely_check, Unlock.check_password. rewrite U.
-      destruct (bytes_eqb _ _); cbn [fst snd s_unlocked set_mk]; rewrite ?U, ?andb_false_r; cbn [s_unlocked set_mk]; rewrite ?U; reflexivity.
-    - split; [apply step_Inv, I|]. unfold Unlock.step_st. cbn [Unlock.step].
-      unfold Unlock.change_priv. rewrite U. destruct (c_version cfg =? 0); exact U.
-    - split; [apply step_Inv, I|]. unfold Unlock.step_st. cbn [Unlock.step].
-      unfold Unlock.change_pub, Unlock.safely_check, Unlock.check_password. rewrite U.
-      destruct (bytes_eqb _ _); cbn [fst snd s_unlocked set_mk]; rewrite ?U, ?andb_false_r; cbn [s_unlocked set_mk]; rewrite ?U; reflexivity.
+    - pose proof (sign_all_Inv ins st p I) as I1.
+      remember (sign_all st p ins) as q eqn:Eq. destruct q as [[l|e] st']; cbn [snd] in *;
+        (split; [apply Inv_clear; exact I1|reflexivity]).
+    - split; [apply step_Inv, I|apply step_keeps_locked; auto].
+    - split; [apply step_Inv, I|apply step_keeps_locked; auto].
+    - split; [apply step_Inv, I|apply step_keeps_locked; auto].
+    - split; [apply step_Inv, I|apply step_keeps_locked; auto].
+    - split; [apply step_Inv, I|apply step_keeps_locked; auto].
   Qed.
 
   Lemma wrun_locked ops : forall st, forallb (fun o => negb (is_sign_hash o)) ops = true ->
@@ -604,7 +647,7 @@ Section Proofs.
     destruct o as [p ins|p a h|p|p|p|a b|np]; cbn [Unlock.wstep snd].
     - destruct (sign_all_run ins st p) as (ops & E).
       exists (ops ++ [OClear]). rewrite run_app.
-      destruct (sign_all st p ins) as [[l|e] st']; cbn [snd] in *; reflexivity.
+      destruct (sign_all st p ins) as [[l|e] st']; cbn [snd] in *; rewrite <- E; reflexivity.
     - exists [OSign p a h]. reflexivity.
     - exists [OExport p]. reflexivity.
     - exists [OMnemonic p]. reflexivity.
@@ -621,7 +664,7 @@ Section Proofs.
   Qed.
 
   Lemma wreachable_reachable st : wreachable st -> reachable st.
-  Proof. intros (wops & _ & <-). destruct (wrun_run wops init_state) as (ops & E). exists ops. auto. Qed.
+  Proof. intros (wops & _ & <-). destruct (wrun_run wops (init_state cfg)) as (ops & E). exists ops. auto. Qed.
 
   (* through the WalletManager's own calls the gate has no exception *)
   Theorem wgate st o p : wreachable st -> needs_secret o = Some p -> op_ready o ->
@@ -639,7 +682,7 @@ Section Proofs.
     exists st', sign_all st right ins = (ROk (map (fun ah => sign (sk_of (fst ah)) (snd ah)) ins), st') /\ Inv st'.
   Proof.
     induction ins as [|[a h] r IH]; intros st I F; [exists st; split; [reflexivity|exact I]|].
-    inversion F as [|x l R1 R2]; subst. cbn [fst snd] in R1.
+    inversion F as [|x l R1 R2]; subst x l. cbn [fst snd] in R1.
     destruct (sign_right st a h I R1) as (st1 & u & E & I1 & _).
     cbn [Unlock.sign_all]. rewrite E.
     destruct (IH st1 I1 R2) as (st2 & E2 & I2). rewrite E2. exists st2. split; [reflexivity|exact I2].
@@ -653,3 +696,120 @@ Section Proofs.
     cbn [Unlock.sign_all]. rewrite E. eauto.
   Qed.
 End Proofs.
+
+(* ------------------------------------------------------------------ the salt defect
+   (finding empty-passphrase-zeroes-salt): with the salted buffer built by
+   append(a.privPassphraseSalt[:], passphrase...) an EMPTY candidate passphrase, checked while the
+   manager is unlocked, zeroes the manager's salt; the right passphrase is refused afterwards. *)
+Section SaltDefect.
+  Variable kdf : bytes -> bytes -> bytes.
+  Variable digest : bytes -> bytes.
+  Variable shash : bytes -> bytes.
+  Variable open_box : bytes -> bytes -> option bytes.
+  Variable sk : Type.
+  Variable sig : Type.
+  Variable branch_ok : bytes -> bool.
+  Variable derive_sk : bytes -> Z -> Z -> option sk.
+  Variable sign : sk -> bytes -> sig.
+  Variable zfix : bool.
+  Variable nfix : bool.
+  Variable cfg : amcfg.
+  Variable right : bytes.
+  Variable acct : bytes.
+  Variable ent : bytes.
+  Variable sk_of : addr -> sk.
+  Hypothesis laws : unlock_laws kdf digest shash open_box sk branch_ok derive_sk cfg right acct ent sk_of.
+
+  Local Notation stepf b := (step kdf digest shash open_box sk sig branch_ok derive_sk sign zfix b nfix cfg).
+
+  Lemma check_password_sfix st p : null p = false ->
+    check_password kdf digest shash sk false nfix cfg st p = check_password kdf digest shash sk true nfix cfg st p.
+  Proof. intros N. unfold check_password. rewrite N. reflexivity. Qed.
+
+  (* an operation whose candidate passphrase is not empty behaves the same in both versions *)
+  Definition pass_nonempty (o : op) : Prop :=
+    match o with
+    | OSign p _ _ | OExport p | OMnemonic p | OCheck p | OChangePub p => null p = false
+    | _ => True
+    end.
+
+  Lemma step_sfix st o : pass_nonempty o -> stepf false st o = stepf true st o.
+  Proof.
+    destruct o as [p a h|p|p|p|a b|np|]; cbn [pass_nonempty]; intros N; cbn [step]; try reflexivity.
+    - unfold sign_btcec. rewrite (check_password_sfix st p N). reflexivity.
+    - unfold export_keystore, safely_check. rewrite (check_password_sfix st p N). reflexivity.
+    - unfold get_mnemonic. rewrite (check_password_sfix st p N). reflexivity.
+    - unfold safely_check. rewrite (check_password_sfix st p N). reflexivity.
+    - unfold change_pub, safely_check. rewrite (check_password_sfix st np N). reflexivity.
+  Qed.
+
+  Theorem salt_defect_refuted a h :
+    sign_ready cfg a h -> right <> [] ->
+    shash (zero32 ++ right) <> shash (c_run_salt cfg ++ right) ->
+    exists st,
+      reachable kdf digest shash open_box sk sig branch_ok derive_sk sign zfix false nfix cfg st /\
+      s_unlocked st = true /\ s_salt st = zero32 /\
+      step_out kdf digest shash open_box sk sig branch_ok derive_sk sign zfix false nfix cfg st (OExport right)
+        = OutErr EInvalidPassphrase /\
+      step_out kdf digest shash open_box sk sig branch_ok derive_sk sign zfix false nfix cfg st (OMnemonic right)
+        = OutErr EInvalidPassphrase.
+  Proof.
+    intros R Rn Hne.
+    assert (Nr : null right = false) by (destruct right; [congruence|reflexivity]).
+    destruct (sign_right kdf digest shash open_box sk sig branch_ok derive_sk sign zfix true nfix cfg right acct ent sk_of
+                laws eq_refl (init_state cfg) a h
+                (Inv_init kdf shash sk zfix cfg right acct sk_of) R) as (st1 & u & E1 & I1 & U1 & _).
+    destruct I1 as [[_ Hs1] HI1]. rewrite U1 in HI1. destruct HI1 as (Hh1 & _ & _).
+    set (st2 := set_salt st1 zero32).
+    assert (E2 : stepf false st1 (OCheck []) = (OutErr EInvalidPassphrase, st2, [])).
+    { cbn [step]. unfold safely_check, check_password. rewrite U1. cbn [null].
+      rewrite Hs1, Hh1.
+      destruct (bytes_eqb (shash (c_run_salt cfg ++ [])) (shash (c_run_salt cfg ++ right))) eqn:B.
+      - apply bytes_eqb_eq in B. apply (shash_inj _ _ _ _ _ _ _ _ _ _ _ _ laws) in B. congruence.
+      - reflexivity. }
+    exists st2. split; [|split; [exact U1|split; [reflexivity|]]].
+    - exists [OSign right a h; OCheck []]. cbn [run]. unfold step_st.
+      rewrite (step_sfix (init_state cfg) (OSign right a h) Nr), E1. cbn [fst snd]. rewrite E2. reflexivity.
+    - assert (C : check_password kdf digest shash sk false nfix cfg st2 right = (Some EInvalidPassphrase, st2)).
+      { unfold check_password. unfold st2 at 1. cbn [s_unlocked set_salt]. rewrite U1, Nr.
+        unfold st2 at 1 2. cbn [s_salt s_hashed set_salt]. rewrite Hh1.
+        destruct (bytes_eqb _ _) eqn:B; [|reflexivity]. apply bytes_eqb_eq in B. contradiction. }
+      split; unfold step_out; cbn [step].
+      + unfold export_keystore, safely_check. rewrite C. reflexivity.
+      + unfold get_mnemonic. rewrite C. reflexivity.
+  Qed.
+End SaltDefect.
+
+(* ------------------------------------------------------------------ the trailing-NUL defect
+   (finding passphrase-trailing-nul-equivalent, repaired by /repo commit 30c1bd3): scrypt keys its
+   HMAC with the passphrase and HMAC zero-pads short keys, so P and P followed by a zero byte
+   derive the same key; without the guard the locked-state check accepts P||00. *)
+Section NulDefect.
+  Variable kdf : bytes -> bytes -> bytes.
+  Variable digest : bytes -> bytes.
+  Variable shash : bytes -> bytes.
+  Variable open_box : bytes -> bytes -> option bytes.
+  Variable sk : Type.
+  Variable sig : Type.
+  Variable branch_ok : bytes -> bool.
+  Variable derive_sk : bytes -> Z -> Z -> option sk.
+  Variable sign : sk -> bytes -> sig.
+  Variable zfix sfix : bool.
+  Variable cfg : amcfg.
+  Variable right : bytes.
+
+  Theorem nul_defect_refuted :
+    c_digest cfg = digest (kdf right (c_salt cfg)) ->
+    kdf (right ++ [0]) (c_salt cfg) = kdf right (c_salt cfg) ->
+    right ++ [0] <> right /\
+    step_out kdf digest shash open_box sk sig branch_ok derive_sk sign zfix sfix false cfg
+             (init_state cfg) (OCheck (right ++ [0])) = OutUnit /\
+    step_out kdf digest shash open_box sk sig branch_ok derive_sk sign zfix sfix false cfg
+             (init_state cfg) (OExport (right ++ [0])) = OutExport (export_of_cfg cfg).
+  Proof.
+    intros D E. split.
+    - intros H. apply (f_equal (@length Z)) in H. rewrite app_length in H. cbn in H. lia.
+    - unfold step_out. cbn [step]. unfold export_keystore, safely_check, check_password.
+      cbn [init_state locked_state s_unlocked andb]. rewrite E, D, bytes_eqb_refl. split; reflexivity.
+  Qed.
+End NulDefect.
